@@ -3,7 +3,9 @@
 # Confirms a seeded change in the scratch worktree /tmp/wt-<ID>: existing suite passes with the patch,
 # the demonstration fails with it and passes without it. Leaves the worktree clean.
 export GOFLAGS=-mod=mod GOPROXY=off GOSUMDB=off GOTOOLCHAIN=local
-id=$1; seed=$2; pkg=$3; re=${4:-.}
+id=$1; seed=$2; pkg=$3
+# the demonstration tests are selected by name, taken from the demo file itself
+re="^($(grep -h "^func Test" "$seed"/demo*_test.go | sed -E "s/^func (Test[A-Za-z0-9_]*).*/\1/" | paste -sd"|"))\$"
 wt=/tmp/wt-$id
 cd $wt || exit 2
 git checkout -q -- . && git clean -fdq
@@ -15,8 +17,9 @@ echo "== demo WITH patch (must fail)"
 go test -vet=off -count=1 -timeout 20m -run "$re" "./$pkg/" 2>&1 | tail -4
 rm -f "$pkg"/demo*_test.go
 echo "== existing suite WITH patch (must pass)"
-go test -vet=off -count=1 -timeout 25m ./... 2>&1 | grep -v "no test files" | grep -v "^ok" | head -10
-echo "   (suite done)"
+go test -vet=off -count=1 -timeout 25m ./... > /tmp/confirm-suite-$id.log 2>&1
+echo "   suite exit=$? ok-packages=$(grep -c "^ok" /tmp/confirm-suite-$id.log) failing=$(grep -c "^FAIL\|^---  *FAIL\|^panic" /tmp/confirm-suite-$id.log)"
+grep "^FAIL\|^--- FAIL" /tmp/confirm-suite-$id.log | head -5; rm -f /tmp/confirm-suite-$id.log
 git checkout -q -- . && git clean -fdq
 cp "$seed"/demo*_test.go "$pkg"/
 echo "== demo WITHOUT patch (must pass)"
